@@ -9,6 +9,8 @@ Streams (model `Wpull.HttpWire` vs the real code in the wpull tree under test):
            is logged, the model replays the exchange from the byte stream + the logged
            read sizes and must make the same calls and end in the same
            (status, fields, body, error class, consumed, closed, notified)
+  leave    the REAL Client + ConnectionPool with sessions that are not completed (header only,
+           left by exception, aborted) while the rest of the response is still on its way
   timeout  ONE Connection(timeout=...) object through stalls (read timeout), closes and
            reconnects: a stall ends in NetworkTimedOut, later exchanges are unaffected
   session  the REAL Client/Session on a reactive server (response k+1 is sent only after
@@ -508,6 +510,109 @@ def stream_session(ctx, seqs):
                     'connections': [r['conn'] for r in metas[0][1]]})
 
 
+# ------------------------------------------------------------------ leave stream
+LEAVES = {'full': 'D', 'header': 'H', 'raise': 'R', 'abort': 'A'}
+
+
+def gen_leave_sequence(rng):
+    """Lock-step exchanges through the real Client + ConnectionPool where some sessions are not
+    completed: only start() is called and the `with` block is left normally, left by an
+    exception, or aborted - while the rest of that response is still on its way (the server
+    delivers it when the next request reaches it on that connection)."""
+    exs = gen_sequence(rng)
+    for e in exs:
+        m = e['msg']
+        e['surplus'] = b''
+        r = rng.random()
+        e['leave'] = 'full' if r < 0.5 else rng.choice(['header', 'header', 'raise', 'abort'])
+        body_segs = fakenet.segment(m.framed, fakenet.random_cuts(rng, len(m.framed)) if len(m.framed) <= 600 else
+                                    sorted(rng.sample(range(1, len(m.framed)), 3)))
+        if e['leave'] == 'full':
+            e['segs'] = fakenet.segment(m.message, fakenet.random_cuts(rng, len(m.message)) if len(m.message) <= 1500 else [])
+            e['hold'] = None
+        else:
+            e['segs'] = [m.head] + body_segs
+            e['hold'] = rng.choice([1, 1, 1, 2, len(e['segs'])])    # mostly: only the header block is out when the session is left
+            e['hold'] = min(e['hold'], len(e['segs']))
+    return exs
+
+
+def fixed_leave_sequences():
+    ok = lambda body: _mk(b'HTTP/1.1 200 OK\r\nContent-Length: %d\r\n\r\n' % len(body), body)
+    evil = b'HTTP/1.1 200 OK\r\nContent-Length: 4\r\n\r\nEVIL'
+    out = []
+    for leave in ('header', 'raise', 'abort'):
+        for first in (ok(evil), ok(b'x' * 30),
+                      _mk(b'HTTP/1.1 200 OK\r\nTransfer-Encoding: chunked\r\n\r\n', b'5\r\nhello\r\n0\r\n\r\n', b'hello', framing='chunked')):
+            for hold in (1, 2):
+                exs = []
+                for k, (m, lv) in enumerate(((ok(b'zero'), 'full'), (first, leave), (ok(b'after'), 'full'), (ok(b'last'), 'full'))):
+                    segs = [m.head, m.framed[:3], m.framed[3:]] if lv != 'full' else [m.message]
+                    exs.append({'segs': [x for x in segs if x], 'eof': False, 'method': 'GET', 'version': 'HTTP/1.1', 'path': '/p%d' % k,
+                                'msg': m, 'surplus': b'', 'marker': b'', 'leave': lv, 'hold': hold if lv != 'full' else None})
+                out.append(exs)
+    return out
+
+
+def stream_leave(ctx, seqs):
+    lines, metas = [], []
+    for exs in seqs:
+        results, conns = H.real_session_sequence(exs)
+        case = {'stream': 'leave',
+                'exchanges': [{'segs': e['segs'], 'eof': e['eof'], 'method': e['method'], 'version': e['version'], 'path': e['path'],
+                               'msg': e['msg'].case(), 'surplus': b'', 'leave': e['leave'], 'hold': e['hold']} for e in exs]}
+        prev_abandoned = None
+        for k, (e, r) in enumerate(zip(exs, results)):
+            m, x = e['msg'], r['x']
+            if prev_abandoned is not None and r['conn'] is not None and r['conn'] == prev_abandoned:
+                ctx.fail('abandoned-connection-reused', 'Session.recycle', case,
+                         'exchange %d runs on connection %d, which exchange %d left with its response body unread (session left by %s)'
+                         % (k, r['conn'], k - 1, exs[k - 1]['leave']))
+            prev_abandoned = None
+            if len(r['requests']) != 1:
+                ctx.fail('request-count', 'Session', case, 'exchange %d: %d requests reached the server' % (k, len(r['requests'])))
+                break
+            if x.outcome != 'ok' or x.status[1] != m.code:
+                ctx.fail('next-response-not-from-first-byte' if k and exs[k - 1]['leave'] != 'full' else 'lockstep-exchange-failed',
+                         'Session', case, 'exchange %d (%s) ended %s %s status %r, the server sent %d%s'
+                         % (k, e['leave'], x.outcome, x.exc, x.status, m.code,
+                            '; the previous session was left by %s with its body unread' % exs[k - 1]['leave'] if k and exs[k - 1]['leave'] != 'full' else ''))
+                break
+            if e['leave'] == 'full':
+                want = m.payload if m.coding is None else H.one_shot_decode(m.coding, m.payload)
+                if want is not None and x.body != want:
+                    ctx.fail('next-response-not-from-first-byte' if k and exs[k - 1]['leave'] != 'full' else 'wrong-body', 'Session', case,
+                             'exchange %d: body %r.. but the server sent %r.. for this request' % (k, x.body[:40], want[:40]))
+                    break
+            elif len(m.framed) > 0:
+                prev_abandoned = r['conn']
+        toks = []
+        for e, r in zip(exs, results):
+            x = r['x']
+            data = b''.join(e['segs'] if e['leave'] == 'full' else e['segs'][:e['hold']])
+            toks += [enc(e['method']), enc(e['version']), 'T' if e['eof'] and e['leave'] == 'full' else 'F', enc(data),
+                     '-' if not H.sched_of(x.calls) else '.'.join('%x' % s for s in H.sched_of(x.calls)),
+                     ','.join(('o' + enc(v)) if k == 'ok' else ('e' + v) for k, v in x.declog) or '~', LEAVES[e['leave']]]
+        lines.append('http sessionl T F ' + ' '.join(toks))
+        metas.append((exs, results))
+    replies = ctx.model.ask(lines)
+    for (exs, results), rep in zip(metas, replies):
+        parts = rep.split(' || ') if rep != '~' else []
+        real_parts, model_parts = [], []
+        for r, p in zip(results, parts):
+            idx, _, body = p.partition(':')
+            f = body.split(' | ')
+            model_parts.append('%s:%s | %s | %s' % (idx, f[0], f[2], f[3]) if len(f) == 4 else p)
+            real_parts.append('%s:%s' % (r['conn'], H.fmt_exchange_nc(r['x'])))
+        ctx.case(('leave', tuple((tuple(e['segs']), e['leave'], e['hold']) for e in exs)),
+                 tags=['leave:len=%d' % len(exs)] + ['leave:' + e['leave'] for e in exs])
+        if len(parts) != len(results) or real_parts != model_parts:
+            ctx.disagree('leave', {'exchanges': [{'segs': e['segs'], 'leave': e['leave'], 'hold': e['hold']} for e in exs]},
+                         [p[:500] for p in model_parts], [p[:500] for p in real_parts])
+    if metas:
+        ctx.sample({'stream': 'leave', 'sequences': len(metas), 'leaves': [e['leave'] for e in metas[0][0]]})
+
+
 # ------------------------------------------------------------------ timeout stream
 def timeout_cases():
     """Sequences on ONE Connection object with a read timeout: well-formed exchanges, an exchange
@@ -614,6 +719,14 @@ def _replay(ctx, case, kind=None, where=None):
             css.append(H.cuts_of(case['segs_b']))
         css += [[], list(range(1, len(data)))]
         stream_decode(ctx, [(m, case['variant'], data, eof, css, tuple(case.get('opts', (True, False))))], True)
+    elif s == 'leave':
+        exs = []
+        for e in case['exchanges']:
+            e = dict(e)
+            e['msg'] = H.Msg.from_case(e['msg'])
+            e['marker'] = b''
+            exs.append(e)
+        stream_leave(ctx, [exs])
     elif s == 'timeout':
         exs = []
         for e in case['exchanges']:
@@ -816,6 +929,8 @@ def _run(ctx, pid='C08'):
         opts = H.OPTS[1 + (i // 2) % 3] if i % 2 else (True, False)      # half default, the rest spread over the other three
         seqs.append((gen_sequence(srng, opts), opts))
     stream_session(ctx, seqs)
+    lrng = ctx.subrng('leave')
+    stream_leave(ctx, fixed_leave_sequences() + [gen_leave_sequence(lrng) for _ in range(ctx.scale(100, 1500))])
     stream_timeout(ctx, timeout_cases())
     ctx.note('read_sizes', 'the model replays the logged size of every Connection.read; calls are compared one by one')
 
